@@ -234,6 +234,21 @@ class C12(Property):
             dict(w(3, 10, [["set", 1, 900, 10], ["set", 2, 901, 20], ["set", 3, 8, 20], ["tick"], ["drain"], ["release", 901],
                            ["release", 900]]), hold=[900, 901]),
         ]
+        # seed C12-11 / F-drain: DRAIN callbacks that call back into the wheel (cache/cleaner.go's clean re-arms a failed
+        # task from the shutdown Drain): re-set their own key, move / remove another, drain again; calls by the
+        # controller while a drain callback is held; the re-set timers are accepted and fire at their due tick
+        cs += [
+            dict(w(4, 10, [["set", 1, 700, 30], ["drain"], ["tick"], ["tick"], ["set", 2, 5, 10], ["tick"], ["drain"]]),
+                 hold=[900], react={"700": ["set", 1, 6, 20]}),
+            dict(w(3, 10, [["set", 1, 700, 20], ["set", 2, 701, 20], ["set", 3, 702, 50], ["set", 4, 900, 30], ["set", 5, 5, 40],
+                           ["drain"], ["set", 6, 6, 10], ["move", 1, 30], ["tick"], ["remove", 7], ["release", 900], ["tick"], ["tick"],
+                           ["tick"], ["drain"]], "fake"),
+                 hold=[900], react={"700": ["set", 1, 8, 20], "701": ["set", 7, 9, 10], "702": ["drain"]}),
+            dict(w(5, 10, [["set", k, 700 + k % 3, 10 * (1 + k % 4)] for k in range(7)] + [["set", 7, 900, 20], ["drain"], ["tick"],
+                           ["set", 8, 1, 10], ["tick"], ["release", 900], ["tick"], ["tick"], ["drain"]]),
+                 hold=[900], react={"700": ["set", 10, 3, 20], "701": ["move", 10, 30], "702": ["remove", 11]}),
+        ]
+        cs += self._drain_fix_cases()
         # MoveTimer / RemoveTimer / SetTimer on a key whose callback is running right now (its timer is gone:
         # Move and Remove find nothing, Set starts a new timer that fires while the old callback still runs)
         cs += [
@@ -303,6 +318,76 @@ class C12(Property):
             x["corpus"] = True
         return first + cs
 
+    DRAIN_ID = "C12-drain-reentrant-blocks-wheel"
+
+    def _drain_unbounded(self):
+        """May a Drain have 8 or more re-entrant / held callbacks in flight with further timers pending?  On the tree
+        at the time of writing that dead-locks the wheel (drainAll feeds its 8-wide runner from the wheel goroutine):
+        such histories are generated only once KNOWN_FINDINGS.jsonl has a kind:"fixed" entry with DRAIN_ID (the repair
+        is in; they are then judged like all others).  With a kind:"known" entry they stay out of the generator (every
+        instance costs a watchdog time-out and a fresh executor); known() recognises exactly that shape should it arise."""
+        return any(e.get("property") == "C12" and e.get("id") == self.DRAIN_ID and e.get("kind") == "fixed"
+                   for e in vlib.load_known())
+
+    def _drain_fix_cases(self):
+        if not self._drain_unbounded():
+            return []
+        w = lambda n, i, ops, tk="rv": {"kind": "wheel", "n": n, "interval": i, "ticker": tk, "ops": ops}
+        return [
+            dict(w(10, 10, [["set", k, 700, 30] for k in range(9)] + [["drain"], ["set", 20, 1, 10], ["tick"], ["tick"], ["drain"]]),
+                 hold=[900], react={"700": ["set", 30, 2, 20]}),
+            dict(w(4, 10, [["set", k, 700 + k % 2, 10 * (1 + k % 5)] for k in range(20)] + [["drain"], ["tick"], ["tick"], ["tick"], ["drain"]]),
+                 hold=[900], react={"700": ["set", 40, 2, 20], "701": ["remove", 40]}),
+        ]
+
+    def _gen_drain_react(self, rng):
+        """1..20 pending timers, some carrying values whose (drain) callback calls back into the wheel, some held;
+        Drain; calls and ticks while drain callbacks are held; ticks until the re-set timers are due; final Drain"""
+        ns = rng.choice([1, 2, 3, 5, 8])
+        interval = rng.choice([1, 10, 1000])
+        npend = rng.randint(1, 20)
+        hold = rng.sample([900, 901, 902], rng.randint(1, 3))
+        rc = {}
+        for v in rng.sample([700, 701, 702, 703], rng.randint(1, 4)):
+            k = rng.randrange(30)
+            d = rng.choice([1, 2, 3, ns + 1]) * interval
+            kind = rng.choice(["set", "set", "set", "move", "remove", "drain"])
+            rc[str(v)] = {"set": ["set", k, rng.randrange(600), d], "move": ["move", k, d], "remove": ["remove", k], "drain": ["drain"]}[kind]
+        budget = 10 ** 9 if self._drain_unbounded() else 7     # re-entrant + held drain callbacks in flight at once
+        free_hold = list(hold)
+        ops = []
+        for k in range(npend):
+            r = rng.random()
+            if r < 0.15 and free_hold and budget > 0:
+                v = free_hold.pop()
+                budget -= 1
+            elif r < 0.6 and budget > 0:
+                v = int(rng.choice(list(rc)))
+                budget -= 1
+            else:
+                v = rng.randrange(600)
+            ops.append(["set", k, v, rng.choice([1, 2, 3, 2 * ns + 1]) * interval])
+        ops += T * rng.randint(0, 1) if npend <= 7 else []
+        ops.append(["drain"])
+        rel = list(hold)
+        rng.shuffle(rel)
+        for _ in range(rng.randint(3, 12)):
+            r = rng.random()
+            k = rng.randrange(30)
+            if r < 0.45:
+                ops.append(["tick"])
+            elif r < 0.6:
+                ops.append(["set", k, rng.randrange(600), rng.choice([1, 2, 3]) * interval])
+            elif r < 0.7:
+                ops.append(["move", k, rng.choice([1, 2, 3]) * interval])
+            elif r < 0.8:
+                ops.append(["remove", k])
+            elif rel:
+                ops.append(["release", rel.pop()])
+        ops += [["release", v] for v in rel] + T * rng.randint(1, 2 * ns + 2) + [["drain"]]
+        return {"kind": "wheel", "n": ns, "interval": interval, "ticker": rng.choice(["rv", "fake", "buf"]), "hold": hold,
+                "react": rc, "ops": ops}
+
     def gen(self, rng, n, tier):
         cases = []
         n_cache = (n * 2) // 5
@@ -316,6 +401,8 @@ class C12(Property):
             cases.append(self._gen_gated(rng))
         for _ in range(n_two):
             cases.append(self._gen_two(rng))
+        for _ in range(max(6, n // 25)):
+            cases.append(self._gen_drain_react(rng))
         for _ in range(n - n_cache - n_clean - n_free - n_gated - n_two):
             cases.append(self._gen_wheel(rng))
         for j in range(n_cache):
@@ -1012,6 +1099,27 @@ class C12(Property):
             return fs
         fs.append("fired=%d" % min(9, sum(len(s.get("f") or []) for s in obs["obs"])))
         return fs
+
+    def known(self, case, obs):
+        """C12-drain-reentrant-blocks-wheel, pinned by the SHAPE OF THE CASE (nothing is probed): the history is a
+        sequence of valid SetTimer calls followed by its first Drain, which is the operation that did not return; at
+        that Drain at least 9 timers are pending and at least 8 of them carry a value whose callback calls back into
+        the wheel or is held by the controller."""
+        if case.get("kind", "wheel") != "wheel" or not obs.get("stuck") or case.get("n2"):
+            return None
+        k = len(obs.get("obs") or [])
+        ops = case["ops"]
+        if k >= len(ops) or ops[k][0] != "drain" or "drain" not in obs["stuck"]:
+            return None
+        pending = {}
+        for o in ops[:k]:
+            if o[0] != "set" or o[1] is None or o[3] < case["interval"]:
+                return None
+            pending[o[1]] = o[2]
+        blocked = set(int(v) for v in (case.get("react") or {})) | set(case.get("hold") or [])
+        if len(pending) >= 9 and sum(1 for v in pending.values() if v in blocked) >= 8:
+            return self.DRAIN_ID
+        return None
 
     def shrink_candidates(self, case):
         cands = Property.shrink_candidates(self, case)
